@@ -409,6 +409,15 @@ fn catalogue() -> Vec<Entry> {
     v.push(entry::<usize>("compute_count_from_indexes", "aggregates", |o, mf, s, e| {
         o.compute_count_from_indexes(mf, &s.first, &s.fine, e)
     }));
+    v.push(entry::<u64>("compute_filtered_sum_from_indexes", "aggregates", |o, mf, s, e| {
+        o.compute_filtered_sum_from_indexes(mf, &s.first, &s.count, &s.fine, |v| v % 2 == 1, e)
+    }));
+    v.push(entry::<usize>("compute_filtered_count_from_indexes", "aggregates", |o, mf, s, e| {
+        o.compute_filtered_count_from_indexes(mf, &s.first, &s.fine, |a| a % 2 == 0, e)
+    }));
+    v.push(entry::<u64>("compute_indirect_sequential", "transforms", |o, mf, s, e| {
+        o.compute_indirect_sequential(mf, &s.first, &s.fine, e)
+    }));
     // ---- statistics
     for (name, w) in [("compute_max(w=1)", 1usize), ("compute_max(w=2)", 2), ("compute_max(w=9)", 9)] {
         let _ = (name, w);
@@ -597,7 +606,7 @@ pub fn add(run: &mut Run, kf: &KnownFindings, tier: &str, wall: u64) {
         "cap_hit": capped,
         "thorough: quick-tier plans completed for every method before the longer ones": !quick,
         "thorough: longer plans completed for every method (prefix of the plan list)": long_plans_done,
-        "not_in_catalogue": ["compute_rolling_average", "compute_rolling_sd", "compute_expanding_sd", "compute_rolling_ratio", "compute_zscore", "compute_weighted_average_of_others", "compute_indirect_sequential", "compute_first_per_index", "compute_filtered_sum_from_indexes", "compute_filtered_count_from_indexes"],
+        "not_in_catalogue": ["compute_rolling_average", "compute_rolling_sd", "compute_expanding_sd", "compute_rolling_ratio", "compute_zscore", "compute_weighted_average_of_others", "compute_first_per_index"],
     }));
     run.cov("explorations", ex);
     run.push_sample(json!({"exploration": "eagerx", "method": "compute_sum(w=2)", "plan": format!("{:?}", plans[plans.len() / 2])}));
